@@ -4,8 +4,10 @@ Driver for Model/Iast.lean at ℚ:   lake env lean --run PgVerif/Drv/Iast.lean
   pp [y] total                  -> ok [partial pressures]
   sel n0 n1 y0 y1               -> ok n/d
   vle n0 n1                     -> ok n/d
+  pcert [ps] [ls] [logs] q lgLast -> ok n0 sp | none     (Model/IastPoint.lean: loading and spreading pressure from the raw data)
+  resid [loads] [pp] [n0] [sp]  -> ok [x] [p0] [spreadDiffs] mixingResidual valid    (certificate arithmetic on a returned result)
 -/
-import PgVerif.Model.Iast
+import PgVerif.Model.IastPoint
 import PgVerif.Drv.Proto
 import Mathlib.Algebra.Order.Field.Rat
 
@@ -31,6 +33,20 @@ def step (ts : List String) : String :=
     match parseRat a, parseRat b with
     | some a, some b => "ok " ++ showRat (vleX (α := ℚ) a b)
     | _, _ => "bad-op"
+  | ["pcert", ps, ls, logs, q, lg] =>
+    match ratList ps, ratList ls, ratList logs, parseRat q, parseRat lg with
+    | some ps, some ls, some logs, some q, some lg =>
+      match pointCert (α := ℚ) ps ls logs q lg with
+      | some (n0, sp) => s!"ok {showRat n0} {showRat sp}"
+      | none => "none"
+    | _, _, _, _, _ => "bad-op"
+  | ["resid", loads, pp, n0, sp] =>
+    match ratList loads, ratList pp, ratList n0, ratList sp with
+    | some loads, some pp, some n0, some sp =>
+      if loads.sum = 0 then "none" else
+      let x := fractionsOf (α := ℚ) loads
+      s!"ok {showRatList x} {showRatList (fictitious pp x)} {showRatList (spreadDiffs sp)} {showRat (mixingResidual x n0 loads.sum)} {fractionsValid x}"
+    | _, _, _, _ => "bad-op"
   | _ => "bad-op"
 
 def main : IO Unit := do loop (← IO.getStdin) step
